@@ -20,10 +20,13 @@ static int rec_handler(void *user, const char *section, const char *name, const 
     evlist *l = user; ev_push(l, section); ev_push(l, name); ev_push(l, value); return 1;
 }
 static void write_file(vbytes d) {
-    FILE *f = fopen(ini_path, "wb");
+    /* a NEW file is moved over the path for every case (a reader that kept the previous inode open would see stale text) */
+    char tmp[4200]; snprintf(tmp, sizeof tmp, "%s.new", ini_path);
+    FILE *f = fopen(tmp, "wb");
     if (!f) { perror("scratch ini"); _exit(3); }
     if (d.n) fwrite(d.p, 1, d.n, f);
     fclose(f);
+    if (rename(tmp, ini_path)) { perror("rename scratch ini"); _exit(3); }
 }
 static void put_list(FILE *out, char **v, size_t n) {
     if (!n) { fputs("[]", out); return; }
@@ -52,6 +55,7 @@ static void handle(int nf, char **f, FILE *out) {
         vbytes d = parse_bytes(f[1]);
         write_file(d);
         evlist a = {0, 0, 0};
+        errno = EINTR;                       /* the caller may arrive with any errno (e.g. after an interrupted call) */
         int ret = ini_parse(ini_path, rec_handler, &a);
         if (!memchr(d.p, 0, d.n)) {          /* the string reader must agree with fgets on NUL-free input */
             evlist b = {0, 0, 0};
@@ -64,6 +68,7 @@ static void handle(int nf, char **f, FILE *out) {
     } else if (!strcmp(f[0], "load") && nf == 2) {
         write_file(parse_bytes(f[1]));
         snoopy_configuration_preinit_enableAltConfigFileParsing((char *)ini_path);
+        errno = EINTR;
         snoopy_init();
         put_cfg(out);
         snoopy_cleanup();
@@ -80,5 +85,5 @@ static void handle(int nf, char **f, FILE *out) {
 int main(int argc, char **argv) {
     ini_path = argc > 1 ? argv[1] : getenv("VERIF_CASE_INI");
     if (!ini_path) { fprintf(stderr, "no scratch ini path\n"); return 2; }
-    return run_cases(stdin, handle, 20);
+    return run_cases(stdin, handle, 5);
 }
